@@ -158,6 +158,12 @@ int sbdf_va_create_rle(sbdf_object const* array, sbdf_valuearray** handle)
 				cur_inp += elem_size;
 			}
 
+			if (end && run == 0)
+			{
+				/* empty input, there is no pending run to emit */
+				break;
+			}
+
 			if (run == 256 || i == array->count || (prev_data && (prev_sz != cur_sz || memcmp(prev_data, cur_data, cur_sz))))
 			{
 				if (out_size == out_capacity)
@@ -219,6 +225,20 @@ int sbdf_va_create_rle(sbdf_object const* array, sbdf_valuearray** handle)
 
 			prev_data = cur_data;
 			prev_sz = cur_sz;
+		}
+
+		if (out_size == 0)
+		{
+			/* empty input, the object constructors still require non-null buffers */
+			out_base = malloc(elem_size);
+			run_out_base = malloc(1);
+			if (!out_base || !run_out_base)
+			{
+				free(run_out_base);
+				free(out_base);
+				free(*handle);
+				return SBDF_ERROR_OUT_OF_MEMORY;
+			}
 		}
 
 		err = sbdf_obj_create_arr(byte_vt, out_size, run_out_base, 0, &(*handle)->object1);
